@@ -194,6 +194,7 @@ func (f *File) DecodeStream(o *Object) ([]byte, error) {
 //	           section chain, newest wins), none at or above /Size
 //	length     every stream's /Length equals the number of bytes between the
 //	           stream EOL and the EOL before endstream
+//	endstream-eol  that end-of-line marker is present (recommended only)
 //	objstm     /N, /First, offset table, members (generation 0, no streams,
 //	           no bare references), containers not compressed themselves
 //	xrefstm    /W, /Index, /Size, predictor parameters consistent
@@ -333,7 +334,8 @@ func WellFormed(f *File) []Problem {
 			case !si.LengthOK:
 				add("length", o.Offset, "stream %s declares /Length %d, the data between the stream EOL and the EOL before endstream are %d bytes", o.Ref, si.Declared, len(si.Raw))
 			case si.EOLBefore == "":
-				add("length", o.Offset, "stream %s: no end-of-line marker before endstream", o.Ref)
+				// (only recommended by 7.3.8.1; C03 asks for it)
+				add("endstream-eol", o.Offset, "stream %s: no end-of-line marker before endstream", o.Ref)
 			}
 		}
 		if os := o.ObjStm; os != nil {
